@@ -100,6 +100,7 @@ class C04(Prop):
             opts["defparam"] = True
         cfg["opts"] = opts
         cfg["restart"] = r.random() < 0.3
+        cfg["twice"] = r.choice([None, None, "plain", "uniquify"]) if not cfg["restart"] else None
         return cfg
 
     def make_gen(self, w, rng, cfg):
@@ -124,6 +125,13 @@ class C04(Prop):
         if cfg["restart"]:
             ev.append({"op": "restart"})
         ev.append({"op": "parse", "path": "sim://out.v", "tag": "reread"})
+        if cfg.get("twice"):
+            # the same netlist object written a second time in the same process (after one more transformation in
+            # some runs): whatever a writer keeps between two calls must not matter
+            if cfg["twice"] == "uniquify":
+                ev.append({"op": "uniquify", "on": net, "tag": "transform"})
+            ev.append({"op": "compose", "on": net, "path": "sim://out2.v", "opts": cfg["opts"], "tag": "write"})
+            ev.append({"op": "parse", "path": "sim://out2.v", "tag": "reread"})
         return ScriptGen(ev)
 
     def start(self, w, cfg):
